@@ -248,6 +248,7 @@ func GenC18Conc(seed uint64, tier string) *Plan {
 	if r.Chance(0.2) {
 		p.Stall = 0.02
 	}
+	p.Config.Redirected = r.Chance(0.3)
 	return p
 }
 
